@@ -13,7 +13,7 @@ FLAGMAP = {'i': re.I, 's': re.S, 'm': re.M, 'x': re.X, 'u': re.U, 'l': re.L}
 @lru_cache(maxsize=4096)
 def compile_pat(pat, bytes_mode=False, gflags=0):
     kind, value, flags = pat
-    src = re.escape(value) if kind == 'str' else value
+    src = re.escape(value) if kind == 'str' else ('[%s-%s]' % (re.escape(value[0]), re.escape(value[1])) if kind == 'range' else value)
     fl = gflags
     for c in flags:
         fl |= FLAGMAP[c]
